@@ -96,7 +96,7 @@ def main():
     if r_l.violated != 'ExactBelowBound':
         raise E.MachineryError(f'deviation control LookupInserts did not violate ExactBelowBound ({r_l.violated})')
     V.notes['deviation_control_lookup'] = 'LookupInserts=TRUE (a look-up creates a zero entry) violates ExactBelowBound'
-    for bound in (1, 2, 3):
+    for bound in (0, 1, 2, 3):          # bound 0: a counter that tracks nothing
         res, cases = run_spec(V, f'Counter/bound{bound}', consts(1, 1, 4, '{1}', 5 if tier == 'quick' else 6, bound=bound), 'NextCounter',
                               ['NeverOverCounts', 'ExactBelowBound', 'AtMostBoundKeys'], emit='EmitCounter')
         if not cases:
